@@ -166,6 +166,15 @@ impl<E: Engine> RateEncoder<E> for DefaultRateEncoder<E> {
     ) -> Result<(), Error> {
         let new_rate_is_high = use_high_rate(original_count, recovery_count)?;
 
+        // Everything that can fail is checked here, before the inner codec is
+        // taken out below: an early return after `mem::take` would leave
+        // `self.0` as `InnerEncoder::None`.
+        if new_rate_is_high {
+            HighRateEncoder::<E>::validate(original_count, recovery_count, shard_bytes)?;
+        } else {
+            LowRateEncoder::<E>::validate(original_count, recovery_count, shard_bytes)?;
+        }
+
         self.0 = match std::mem::take(&mut self.0) {
             InnerEncoder::High(mut high) => {
                 if new_rate_is_high {
@@ -309,6 +318,15 @@ impl<E: Engine> RateDecoder<E> for DefaultRateDecoder<E> {
         shard_bytes: usize,
     ) -> Result<(), Error> {
         let new_rate_is_high = use_high_rate(original_count, recovery_count)?;
+
+        // Everything that can fail is checked here, before the inner codec is
+        // taken out below: an early return after `mem::take` would leave
+        // `self.0` as `InnerDecoder::None`.
+        if new_rate_is_high {
+            HighRateDecoder::<E>::validate(original_count, recovery_count, shard_bytes)?;
+        } else {
+            LowRateDecoder::<E>::validate(original_count, recovery_count, shard_bytes)?;
+        }
 
         self.0 = match std::mem::take(&mut self.0) {
             InnerDecoder::High(mut high) => {
